@@ -102,7 +102,13 @@ where
     I: IntoIterator<Item = Update<'a>>,
 {
     let mut applied = Applied::default();
-    for up in updates.into_iter() {
+    // N.b. deletions are applied first: a reference such as `refs/heads/a` that is
+    // replaced by `refs/heads/a/b` (or vice versa) can only be created once the
+    // other one is gone.
+    let (prunes, directs): (Vec<_>, Vec<_>) = updates
+        .into_iter()
+        .partition(|up| matches!(up, Update::Prune { .. }));
+    for up in prunes.into_iter().chain(directs) {
         match up {
             Update::Direct {
                 name,
